@@ -70,11 +70,11 @@ func AddrN(kind string, i int) sdk.AccAddress { return Addr(fmt.Sprintf("%s/%d",
 
 // TxOpts are the envelope fields of a simulated transaction.
 type TxOpts struct {
-	Gas      uint64
-	Fee      sdk.Coins
-	Memo     string // carries harness fault directives, see FaultDirective
-	Granter  sdk.AccAddress
-	Payer    sdk.AccAddress
+	Gas     uint64
+	Fee     sdk.Coins
+	Memo    string // carries harness fault directives, see FaultDirective
+	Granter sdk.AccAddress
+	Payer   sdk.AccAddress
 }
 
 // BuildTx encodes an (unsigned) transaction.  Outer-tx signature verification
@@ -133,8 +133,8 @@ type FaultState struct {
 	Fired   int            // how many injected faults fired (cumulative)
 	CallLog []string       // site:method per call within the current tx (recording mode)
 	Record  bool
-	TxFired []bool         // per BeginTx since the last ResetLog: did an injected fault fire in that tx
-	TxCalls [][]string     // per BeginTx: the call log of that tx (when Record)
+	TxFired []bool     // per BeginTx since the last ResetLog: did an injected fault fire in that tx
+	TxCalls [][]string // per BeginTx: the call log of that tx (when Record)
 }
 
 func (f *FaultState) ResetLog() { f.TxFired = nil; f.TxCalls = nil }
